@@ -257,6 +257,46 @@ for _gr in (False, True):
              tier=('thorough' if _gr else 'quick'))
 
 
+def gram_epoch_stub_task(T):
+    """greedy Gram epoch with a penalty known only through its interface (prox: fresh values; scores: an uninterpreted function of
+    (w_j, grad_j, j)): the Gram-form gradient invariant is preserved and the returned scores are those of the FINAL point"""
+    import z3
+    from pv import sym, symrun
+    from pv.sproof import check_contract, zpre
+    symrun.install()
+    kern = symrun.get('skglm.solvers.gram_cd', '_gram_cd_epoch')
+    R = sym.SymReal
+    p = 2
+    G = [[z3.Real('G00'), z3.Real('G01')], [z3.Real('G01'), z3.Real('G11')]]
+    w0 = [z3.Real('w0'), z3.Real('w1')]
+    c = [z3.Real('c0'), z3.Real('c1')]
+    r = [z3.Real('r0'), z3.Real('r1')]
+    SC = z3.Function('SCORE_1d', z3.RealSort(), z3.RealSort(), z3.IntSort(), z3.RealSort())
+    L = sym.lift
+
+    class Pen(StubPenalty):
+        def subdiff_distance(self, w, grad, ws):
+            return np.array([R(SC(L(w[j]), L(grad[k]), z3.IntVal(int(j)))) for k, j in enumerate(ws)], dtype=object)
+
+    def run():
+        Gm = np.array([[R(v) for v in row] for row in G], dtype=object)
+        w = np.array([R(v) for v in w0], dtype=object)
+        grad = np.array([Gm[i, 0] * w[0] + Gm[i, 1] * w[1] - R(c[i]) + R(r[i]) for i in range(p)], dtype=object)
+        pen = Pen()
+        opt = kern(Gm, w, grad, pen, True)
+        return w, grad, opt, pen.subdiff_distance(w, grad, np.arange(p))
+
+    def post(out, pth):
+        w, grad, opt, fresh = out
+        return [(f'grad-Gw-preserved[{i}]', [], L(grad[i]) - (G[i][0] * L(w[0]) + G[i][1] * L(w[1])) == r[i] - c[i]) for i in range(p)] + \
+               [(f'returned-scores-are-those-of-the-final-point[{i}]', [], L(opt[i]) == L(fresh[i])) for i in range(p)]
+    check_contract(T, 'epoch[greedy,stub-penalty]', run, zpre([G[0][0] >= 0, G[1][1] >= 0]), post, strength='B',
+                   replay=dict(fn='contracts.kernels2:replay_gram_epoch', args=dict(greedy=True)))
+
+
+add_task(['C01', 'C17', 'C19', 'C20'], 'gram_cd:_gram_cd_epoch[greedy=True,stub-penalty]', gram_epoch_stub_task, strength='B')
+
+
 def replay_gram_epoch(args, model):
     from fractions import Fraction
     from skglm.solvers.gram_cd import _gram_cd_epoch
